@@ -44,7 +44,23 @@ type Prop struct {
 
 var registry = map[string]*Prop{}
 
-func Register(p *Prop) { registry[p.ID] = p }
+func Register(p *Prop) {
+	registry[p.ID] = p
+	for _, f := range afterRegister {
+		f(p)
+	}
+}
+
+var afterRegister []func(*Prop)
+
+// AfterRegister registers a function applied to every property, those registered already and those to come
+// (package initialisation order is file order: the caller cannot know which).
+func AfterRegister(f func(*Prop)) {
+	afterRegister = append(afterRegister, f)
+	for _, p := range registry {
+		f(p)
+	}
+}
 
 // Violation is one counterexample.  Sig classifies it (oracle clause +
 // operation + failure kind [+ input when the class is input specific]); it is
